@@ -147,12 +147,29 @@ std::string raw_bytes(const Model& md)
 }
 uint64_t getters_of(const Model& md) { return md.m ? ops::getters_mssm(*md.m) : md.t ? ops::getters_thdm(*md.t) : 0; }
 
-/// build a model according to "mssm <seed>" | "thdm <seed>" | "slha <idx>"
-void build_model(Model& out, const std::string& kind, uint64_t arg)
+/// near-duplicate points: the point of a seed with ONE parameter moved by one ulp / 1e-12 / 1e-7 (relative).  A memo with
+/// a coarse or truncated key, or a "same as last time" test with a tolerance, returns the neighbour's value for them.
+void perturb(ops::MssmPoint& p, int near)
+{
+   if (near <= 0) return;
+   static const double mag[] = {2.220446049250313e-16, 1e-12, 1e-7};
+   const double f = 1.0 + mag[(near / 8) % 3];
+   switch (near % 8) { case 0: p.TB *= f; break; case 1: p.Mu *= f; break; case 2: p.M1 *= f; break; case 3: p.M2 *= f; break; case 4: p.MA *= f; break; case 5: p.ml2[1] *= f; break; case 6: p.me2[1] *= f; break; default: p.scale *= f; break; }
+}
+void perturb(ops::ThdmPoint& p, int near)
+{
+   if (near <= 0) return;
+   static const double mag[] = {2.220446049250313e-16, 1e-12, 1e-7};
+   const double f = 1.0 + mag[(near / 8) % 3];
+   switch (near % 8) { case 0: p.tb *= f; break; case 1: p.mA *= f; break; case 2: p.mH *= f; break; case 3: p.mHp *= f; break; case 4: p.zeta_l *= f; break; case 5: p.m122 *= f; break; case 6: p.lambda[0] *= f; p.zeta_u *= f; break; default: p.alpha_em_mz *= f; break; }
+}
+
+/// build a model according to "mssm <seed> [near]" | "thdm <seed> [near]" | "slha <idx>"
+void build_model(Model& out, const std::string& kind, uint64_t arg, int near = 0)
 {
    out.reset();
-   if (kind == "mssm") out.m = ops::make_mssm(mssm_point(arg));
-   else if (kind == "thdm") out.t = ops::make_thdm(thdm_point(arg));
+   if (kind == "mssm") { ops::MssmPoint p = mssm_point(arg); perturb(p, near); out.m = ops::make_mssm(p); }
+   else if (kind == "thdm") { ops::ThdmPoint p = thdm_point(arg); perturb(p, near); out.t = ops::make_thdm(p); }
    else if (kind == "slha" && !g_corpus.empty()) { const CorpusFile& f = g_corpus[arg % g_corpus.size()]; ops::make_from_slha(f.bytes, f.type, &out.m, &out.t); }
 }
 
@@ -223,7 +240,7 @@ OpResult exec_op_inner(Context& c, const std::vector<std::string>& t, std::vecto
    try {
       if (t[0] == "mk" && t.size() >= 4) {
          Model& s = c.slot[((sim::iparse(t[1]) % NSLOTS) + NSLOTS) % NSLOTS];
-         build_model(s, t[2], (uint64_t)std::strtoull(t[3].c_str(), nullptr, 0));
+         build_model(s, t[2], (uint64_t)std::strtoull(t[3].c_str(), nullptr, 0), t.size() > 4 ? (int)sim::iparse(t[4]) : 0);
          r.bits = getters_of(s);
       } else if (t[0] == "cp" && t.size() >= 4) {
          Model& dst = c.slot[((sim::iparse(t[1]) % NSLOTS) + NSLOTS) % NSLOTS];
@@ -269,7 +286,10 @@ OpResult exec_op_inner(Context& c, const std::vector<std::string>& t, std::vecto
          sim::Fnv h; h.str(s); r.bits = h.h;
       } else if (t[0] == "sm" && t.size() >= 2) {
          sim::Rng g((uint64_t)std::strtoull(t[1].c_str(), nullptr, 0));
-         r.bits = sim::bits(ops::sm_ops(g.uniform(0.2, 0.25), g.uniform(0.7, 0.9), g.uniform(0.1, 0.2), g.uniform(0.3, 0.4), g.chance(0.1) ? 6000.0 : g.uniform(90, 92), g.uniform(0.11, 0.125)));
+         const double wl = g.uniform(0.2, 0.25), wa = g.uniform(0.7, 0.9), wr = g.uniform(0.1, 0.2), we = g.uniform(0.3, 0.4), mz = g.chance(0.1) ? 6000.0 : g.uniform(90, 92);
+         double as = g.uniform(0.11, 0.125);
+         if (t.size() > 2) { static const double mag[] = {2.220446049250313e-16, 1e-12, 1e-7}; as *= 1.0 + mag[sim::iparse(t[2]) % 3]; } // neighbour of an earlier call
+         r.bits = sim::bits(ops::sm_ops(wl, wa, wr, we, mz, as));
       } else if (t[0] == "ff" && t.size() >= 2) {
          sim::Rng g((uint64_t)std::strtoull(t[1].c_str(), nullptr, 0));
          const double x = g.loguniform(1e-3, 1e3), y = g.chance(0.15) ? x : g.loguniform(1e-3, 1e3), z = g.chance(0.15) ? 1.0 : g.loguniform(1e-3, 1e3);
@@ -343,10 +363,16 @@ std::vector<std::string> gen_plan(uint64_t seed, std::string* mode_out)
    const int nshared = (int)r.range(1, NSHARED);
    const int flavour = (int)r.below(5); // 0 mixed, 1 shared-model heavy, 2 construction heavy, 3 slha/readers, 4 single function hammered by all
    std::vector<int> shared_kind(nshared); // 0 mssm 1 thdm
+   std::vector<uint64_t> seeds_used[2];   // point seeds of this plan per model kind (for near-duplicate points)
+   std::vector<uint64_t> sm_seeds;
+   auto point_arg = [&](int kind) -> std::string {
+      if (!seeds_used[kind].empty() && r.chance(0.3)) return std::to_string(seeds_used[kind][r.below(seeds_used[kind].size())]) + " " + std::to_string(1 + r.below(24)); // a neighbour of an earlier point
+      const uint64_t sd = r.next() >> 1; seeds_used[kind].push_back(sd); return std::to_string(sd);
+   };
    for (int k = 0; k < nshared; ++k) {
       const bool use_slha = !g_corpus.empty() && r.chance(0.15);
       if (use_slha) { const uint64_t idx = r.below(g_corpus.size()); shared_kind[k] = g_corpus[idx].type == "thdm" ? 1 : 0; p.push_back("shared " + std::to_string(k) + " slha " + std::to_string(idx)); }
-      else { shared_kind[k] = r.chance(0.5) ? 1 : 0; p.push_back("shared " + std::to_string(k) + (shared_kind[k] ? " thdm " : " mssm ") + std::to_string(r.next() >> 1)); }
+      else { shared_kind[k] = r.chance(0.5) ? 1 : 0; const uint64_t sd = r.next() >> 1; seeds_used[shared_kind[k]].push_back(sd); p.push_back("shared " + std::to_string(k) + (shared_kind[k] ? " thdm " : " mssm ") + std::to_string(sd)); }
    }
    auto fn_for = [&](int kind) -> std::string {
       if (kind == 0) { const int n = ops::n_mssm_fns(); return ops::mssm_fn_name(r.chance(0.5) ? (int)r.below(17) % n : (int)r.below(n)); }
@@ -370,7 +396,7 @@ std::vector<std::string> gen_plan(uint64_t seed, std::string* mode_out)
          }
          const int sl = (int)r.below(NSLOTS);
          switch (what) {
-         case 0: { const int kind = r.chance(0.5) ? 1 : 0; slot_kind[sl] = kind; p.push_back(T + "mk " + std::to_string(sl) + (kind ? " thdm " : " mssm ") + std::to_string(r.next() >> 1)); } break;
+         case 0: { const int kind = r.chance(0.5) ? 1 : 0; slot_kind[sl] = kind; p.push_back(T + "mk " + std::to_string(sl) + (kind ? " thdm " : " mssm ") + point_arg(kind)); } break;
          case 1: { // copy
             if (r.chance(0.7)) { const int k = (int)r.below(nshared); slot_kind[sl] = shared_kind[k]; p.push_back(T + "cp " + std::to_string(sl) + " s " + std::to_string(k)); }
             else { const int j = (int)r.below(NSLOTS); if (slot_kind[j] >= 0 && j != sl) { slot_kind[sl] = slot_kind[j]; p.push_back(T + "cp " + std::to_string(sl) + " p " + std::to_string(j)); } else { slot_kind[sl] = 0; p.push_back(T + "mk " + std::to_string(sl) + " mssm " + std::to_string(r.next() >> 1)); } }
@@ -385,7 +411,9 @@ std::vector<std::string> gen_plan(uint64_t seed, std::string* mode_out)
             }
          } break;
          case 3: { if (r.chance(0.6)) p.push_back(T + "pr s " + std::to_string(r.below(nshared))); else { int j = -1; for (int c = 0; c < NSLOTS; ++c) if (slot_kind[c] >= 0) j = c; if (j >= 0) p.push_back(T + "pr p " + std::to_string(j)); else p.push_back(T + "pr s 0"); } } break;
-         case 4: p.push_back(T + "sm " + std::to_string(r.next() >> 1)); break;
+         case 4: {
+                   if (!sm_seeds.empty() && r.chance(0.3)) p.push_back(T + "sm " + std::to_string(sm_seeds[r.below(sm_seeds.size())]) + " " + std::to_string(r.below(3)));
+                   else { const uint64_t sd = r.next() >> 1; sm_seeds.push_back(sd); p.push_back(T + "sm " + std::to_string(sd)); } } break;
          case 5: { if (g_corpus.empty()) { p.push_back(T + "sm " + std::to_string(r.next() >> 1)); break; } const uint64_t idx = r.below(g_corpus.size()); slot_kind[sl] = g_corpus[idx].type == "thdm" ? 1 : 0; p.push_back(T + "mk " + std::to_string(sl) + " slha " + std::to_string(idx)); } break;
          case 7: { // change a model the task owns (often a copy of a shared model that other tasks are reading) and recalculate
             int j = -1; for (int tries = 0; tries < 4 && j < 0; ++tries) { const int c = (int)r.below(NSLOTS); if (slot_kind[c] >= 0) j = c; }
